@@ -19,8 +19,31 @@ INFO = dict(
 STM = sys.modules['skgstat.SpaceTimeVariogram']
 
 
-@guarded
-def check_case(ctx, case):
+def refit_after(ctx, case, V):
+    """the same instance fitted again after its estimator changed: the parameters are those of a fresh instance with
+    the final settings (fitted to the *current* experimental table)"""
+    if case['model'] != 'product-sum' or not case.get('refit', True):
+        return
+    other = 'dowd' if case['estimator'] != 'dowd' else 'matheron'
+    try:
+        with quiet():
+            V.set_estimator(other)
+            V.fit()
+            cof2 = [float(c) for c in V.cof]
+            F = c14.build(dict(case, estimator=other))
+            F.set_model(case['model'])
+            F.fit()
+            cofF = [float(c) for c in F.cof]
+        ctx.count('refit_after_estimator_change')
+        scale_c = max(1e-9, max(abs(c) for c in cofF))
+        if not all_close(cof2, cofF, rel=1e-6, abs_=1e-6 * scale_c):
+            ctx.violation('stale-fit', 'after estimator=%r on a fitted instance and a new fit: coefficients %r, a fresh '
+                          'instance with the final settings gives %r' % (other, cof2, cofF), case)
+    except (ValueError, RuntimeError, ZeroDivisionError) as e:
+        ctx.reject('refit:' + type(e).__name__)
+
+
+def _check_case_inner(ctx, case):
     rec = []
     real = scipy.optimize.curve_fit
 
@@ -88,7 +111,7 @@ def check_case(ctx, case):
                     case['model'], N, stack.tolist(), got, single[:N]), case)
                 return
     if not rec:
-        return   # no free parameter (sum / product with fixed sills): nothing is fitted
+        return V   # no free parameter (sum / product with fixed sills): nothing is fitted
     call = rec[-1]
 
     def cb(f):
@@ -120,6 +143,14 @@ def check_case(ctx, case):
             ctx.violation('not-locally-optimal', 're-optimising from %r lowers the objective from %r to %r' % (cof, o1, o2), case)
     except Exception:
         pass
+    return V
+
+
+@guarded
+def check_case(ctx, case):
+    V = _check_case_inner(ctx, case)
+    if V is not None:
+        refit_after(ctx, case, V)
 
 
 def run(ctx):
